@@ -502,3 +502,46 @@ pub fn journal_case(rng: &mut Rng, i: u64, inp: &mut String, out: &mut String) {
     }
     write!(inp, " {count}{snap_tokens}").unwrap();
 }
+
+// --------------------------------------------------------------------------------------- rule
+
+/// rule <malformed> <n> {tx}*n <txid> <cp> <nstate> {addr bal deleg}* <nentries> {entry}*
+/// impl:  v:<0|1>   (the production WithReserveHandler::has_reserve_violation on a real EVM
+/// context whose journal was driven as in `journal_case`, with the production planner)
+pub fn rule_case(rng: &mut Rng, i: u64, inp: &mut String, out: &mut String) {
+    let malformed = i % 4 == 3;
+    let boundary = i % 5 == 4;
+    let n = rng.range(1, 12) as usize;
+    let senders = rng.range(2, 6);
+    let mut txs: Vec<TxEnv> = (0..n)
+        .map(|_| {
+            if boundary {
+                gen_tx(rng, senders, true)
+            } else {
+                // costs of the same magnitude as the journal's balances, so the comparison is
+                // exercised on both sides of the boundary
+                let mut tx = gen_tx(rng, senders, false);
+                tx.gas_limit = rng.below(40);
+                tx.gas_price = rng.below(30) as u128;
+                tx.value = U256::from(rng.below(800));
+                tx.tx_type = 0;
+                tx
+            }
+        })
+        .collect();
+    // mostly early positions, so that later transactions of the same senders exist
+    let txid = if rng.chance(2, 3) { rng.below((n as u64 + 1) / 2) } else { rng.below(n as u64) } as usize;
+    let mut rule = real::RuleV::new();
+    let JournalCase { cp, tx, .. } = build_journal(rng, malformed, rule.journal_mut(), Some(txs[txid].clone()));
+    txs[txid] = tx.clone(); // the root transfer may have clamped the value to the caller's balance
+    write!(inp, "rule {} {n}", malformed as u8).unwrap();
+    for t in &txs {
+        write_tx(inp, t);
+    }
+    write!(inp, " {txid:x} {:x}", cp.journal_i).unwrap();
+    write_state(inp, rule.journal());
+    write_entries(inp, &rule.journal().inner.journal);
+    let planner = real::PlannerV::new(Arc::new(txs));
+    let violated = rule.has_reserve_violation(tx, txid, &planner, cp);
+    write!(out, "v:{}", violated as u8).unwrap();
+}
